@@ -11,6 +11,9 @@ RULE = (
     '  Added strata: keyword-call atoms f(x, p=2) / f(x, p=3); variables named Intercept / NegatedIntercept on '
     'both sides of |; two spellings of one interaction in a union; for every tree of <= 3 leaves the '
     'description is the same before and after design_matrices on the same text. '
+    'Later: equal-valued literals (1 / True / 1.0), literals written twice, group items among the '
+    'intercept-literal placements, sums of 6-16 items as operands, powers of long sums, no factor twice in a '
+    'term, the list handed out by .terms. '
 )
 ASSUMPTIONS = [
     "reference algebra (fmc/refmodel/algebra.py) is the documented definition; pinned by fmc selftest",
